@@ -328,7 +328,9 @@ def replay(obj):
     servers.update(mc.edit_then_abort_servers())
     if 'targets' not in inp:
         print(json.dumps(f, indent=1)[:1500])
-        return 0
+        import sys
+        from common import rerun_for_signature
+        return rerun_for_signature(sys.modules[__name__], f)
     extra = inp.get('args', ['-j'] if inp.get('format') == 'json' else [])
     code, out, hosts, net = mc.run_targets(inp['targets'], servers, threads=inp.get('threads', 1), extra=extra)
     for m_ in mc_direct_lines():
